@@ -33,9 +33,13 @@ void ambientRestore(bool withLocale);
 // task on a lock held by a parked task.  Calls are counted for the evidence.
 struct AmbientReads {
     long clock = 0, random = 0, env = 0, sleep = 0, lock = 0, lockContended = 0;
-    long total() const { return clock + random + env + sleep + lock; }
+    long nonReentrant = 0;  // strtok, localtime, gmtime, asctime, ctime, strerror, setlocale
+    long total() const { return clock + random + env + sleep + lock + nonReentrant; }
 };
 void ambientResetPerRun();
 AmbientReads ambientReads();
 // set by the scheduler: give up the CPU because a lock is held by a parked task
 extern void (*ambientYieldHook)(void);
+// set by the scheduler: a preferred preemption point (the library just returned from a libc facility that
+// keeps hidden static state)
+extern void (*ambientPreferHook)(void);
